@@ -171,7 +171,7 @@ def gen_Xsd(repo: pathlib.Path) -> str:
         for scope in extract._reachable_functions(mod, _func(mod, "_translate_to_simple_type"))
         for n in ast.walk(scope)
         if isinstance(n, ast.Compare) and len(n.ops) == 1 and isinstance(n.ops[0], ast.NotEq)
-        for c in [extract._resolve_module_constant(mod, n.comparators[0])]
+        for c in [extract._resolve_module_constant(mod, side) for side in (n.left, n.comparators[0])]
         if isinstance(c, ast.Constant) and isinstance(c.value, str)
     ]
     if len(xml_pats) != 1:
